@@ -43,7 +43,12 @@ func run(kind int) {
 	db := stack(kind)
 	model := &vstore.Map{}
 	// a pre-existing pair, then one arbitrary write
-	k0, v0 := symkv.Key("k0", 1), symkv.Bytes("v0", 0, 1)
+	// the pre-existing key may be EMPTY (a legal key of every backend and wrapper; under a table it is stored
+	// as the bare prefix)
+	k0, v0 := symkv.Bytes("k0", 0, 1), symkv.Bytes("v0", 0, 1)
+	if len(k0) == 0 {
+		sym.Reach("empty-key")
+	}
 	sym.Assert(db.Put(k0, v0) == nil, "Put")
 	model.Set(k0, v0)
 	k1, v1 := symkv.Key("k1", 2), symkv.Bytes("v1", 0, 1)
